@@ -54,3 +54,61 @@ func verifLemmaSeq(s, t Sequence, n int) (antisym, zero, shift bool) {
 //@   ensures first != last && first != prev ==> first.next == old(first.next)
 //@   ensures first != last && last != next ==> last.prev == old(last.prev)
 //@   modifies connection.first connection.last page.next page.prev
+
+// ---- page accounting and stream lifecycle (C11) ------------------------------------------------------------------
+
+// The page cache's in-use counter moves by exactly one per page handed out / taken back.
+//@ func (c *pageCache) next(ts time.Time) (p *page)
+//@   props C11
+//@   requires 0 <= c.used && c.used < 4611686018427387904
+//@   ensures c.used == old(c.used) + 1
+
+//@ func (c *pageCache) replace(p *page)
+//@   props C11
+//@   ensures old(c.used) > -4611686018427387904 ==> c.used == old(c.used) - 1
+
+// pagesFromTCP reports exactly the number of pages it took from the cache (the per-connection page limit and the
+// buffered-page accounting of the assembler are computed from this number), and at least one.
+//@ func (a *Assembler) pagesFromTCP(t *layers.TCP, ts time.Time) (p *page, p2 *page, numPages int)
+//@   props C11
+//@   requires 0 <= a.pc.used && a.pc.used < 2305843009213693952 && len(t.Payload) < 2305843009213693952
+//@   ensures numPages == a.pc.used - old(a.pc.used) && numPages >= 1
+//@   loop 0: invariant numPages == a.pc.used - old(a.pc.used) && numPages >= 1 && a.pc == old(a.pc) && a.pc.used < 2305843009213693952 + numPages
+//@   loop 0: invariant len(bytes) <= len(t.Payload) && numPages <= 1 + len(t.Payload) - len(bytes) && isSeq(seq)
+
+// Assumption about user code (listed in the evidence): stream callbacks do not call back into the assembler, so they
+// change nothing the assembler can observe.
+//@ ifacecontract Stream.Reassembled(rs []Reassembly)
+//@   props C11
+//@   modifies nothing
+//@ ifacecontract Stream.ReassemblyComplete()
+//@   props C11
+//@   modifies nothing
+
+// closeConnection is the only caller of Stream.ReassemblyComplete: it runs for a connection that is still open
+// and leaves it closed, so the completion callback fires at most once per connection.
+//@ func (a *Assembler) closeConnection(conn *connection)
+//@   props C11
+//@   requires !conn.closed
+//@   ensures conn.closed
+
+// No data after completion: Reassembled is called (by sendToConnection) only on a connection that is still open,
+// and every path that reaches it or closeConnection has established that (callers are checked against these).
+//@ func (a *Assembler) sendToConnection(conn *connection)
+//@   props C11
+//@   requires !conn.closed
+
+//@ func (a *Assembler) skipFlush(conn *connection)
+//@   props C11
+//@   requires !conn.closed
+
+// The entry points (brought into scope so that their call sites are checked against the requires above).
+//@ func (a *Assembler) FlushWithOptions(opt FlushOptions) (flushed int, closed int)
+//@   props C11
+//@   loop 1: invariant !conn.closed
+
+//@ func (a *Assembler) FlushAll() (closed int)
+//@   props C11
+
+//@ func (a *Assembler) AssembleWithTimestamp(netFlow gopacket.Flow, t *layers.TCP, timestamp time.Time)
+//@   props C11
